@@ -1500,7 +1500,8 @@ func (fc *FnCtx) applyContractSig(st *State, call *ast.CallExpr, fname string, s
 func (fc *FnCtx) specForCaller(env *SpecEnv, en Clause, ct *Contract) (v Val, ok bool) {
 	defer func() {
 		if r := recover(); r != nil {
-			if ue, isU := r.(unsupportedErr); isU && !ct.Extern && strings.Contains(ue.msg, "unknown name") {
+			// (a missing resultN means the callee's signature changed under a stale contract: that must still degrade the caller)
+			if ue, isU := r.(unsupportedErr); isU && !ct.Extern && strings.Contains(ue.msg, "unknown name") && !strings.Contains(ue.msg, "unknown name \"result") {
 				ok = false
 				return
 			}
